@@ -15,7 +15,7 @@ from . import smt
 from .values import (V, VInt, VBool, VNone, VNoneT, VStr, VTuple, VBox, VRef,
                      VConc, VFunc, VExc, VMatch, Val, Cell, ListCell, SeqCell,
                      DictCell, ObjCell, StreamCell, Unsupported, box, from_py,
-                     SeqString, SeqVal)
+                     SeqString, SeqVal, L_len, L_at)
 
 
 class PathEnd(Exception):
@@ -53,13 +53,114 @@ class Obligation(object):
         self.path = path
         self.kind = kind
         self.result = None
+        self.n_pc = len(self.assumptions)
 
     def smt2(self):
         return smt.to_smt2(self.assumptions + [z3.Not(self.goal)])
 
+    def slices(self):
+        """Relevance slices of the assumptions (dropping assumptions is
+        sound): direct, two-step and transitive cone of the goal's symbols.
+        Returns list of (name, smt2 text), smallest first, full VC last."""
+        syms = [symbols_of(a) for a in self.assumptions]
+        out = []
+        seen_sizes = set()
+        cone = set(symbols_of(self.goal))
+        if not cone and self.assumptions:
+            # goal False (exception freedom): the path must be infeasible;
+            # start from the branch condition that led here
+            cone = set(symbols_of(self.assumptions[self.n_pc - 1]))
+        picked = set()
+        for depth in (1, 2, 3):
+            changed = False
+            new = set(cone)
+            for i, sy in enumerate(syms):
+                if i not in picked and sy & cone:
+                    picked.add(i)
+                    new |= sy
+                    changed = True
+            cone = new
+            if len(picked) not in seen_sizes and \
+                    len(picked) < len(self.assumptions):
+                seen_sizes.add(len(picked))
+                sel = [self.assumptions[i] for i in sorted(picked)]
+                out.append(('slice%d' % depth,
+                            smt.to_smt2(sel + [z3.Not(self.goal)])))
+            if not changed:
+                break
+        out.append(('full', self.smt2()))
+        return out
+
     def trivially_true(self):
         g = z3.simplify(self.goal)
         return z3.is_true(g)
+
+
+_sym_cache = {}
+_nth_cache = {}
+
+
+def has_nth(e):
+    key = e.get_id()
+    r = _nth_cache.get(key)
+    if r is not None:
+        return r
+    r = False
+    stack = [e]
+    seen = set()
+    while stack:
+        x = stack.pop()
+        i = x.get_id()
+        if i in seen:
+            continue
+        seen.add(i)
+        if z3.is_app(x):
+            if x.decl().kind() == z3.Z3_OP_SEQ_NTH:
+                r = True
+                break
+            stack.extend(x.children())
+        elif z3.is_quantifier(x):
+            stack.append(x.body())
+    _nth_cache[key] = r
+    return r
+
+
+def simp(e):
+    """z3.simplify, except that terms with seq.nth are kept as written
+    unless they simplify to a constant (z3 expands nth into internal
+    in-range / out-of-range symbols that bloat the VCs)."""
+    s = z3.simplify(e)
+    if z3.is_true(s) or z3.is_false(s) or not has_nth(e):
+        return s
+    return e
+
+
+
+def symbols_of(e):
+    """Uninterpreted constants / functions occurring in e."""
+    key = e.get_id()
+    r = _sym_cache.get(key)
+    if r is not None:
+        return r
+    out = set()
+    stack = [e]
+    seen = set()
+    while stack:
+        x = stack.pop()
+        i = x.get_id()
+        if i in seen:
+            continue
+        seen.add(i)
+        if z3.is_app(x):
+            d = x.decl()
+            if d.kind() == z3.Z3_OP_UNINTERPRETED:
+                out.add(d.name())
+            stack.extend(x.children())
+        elif z3.is_quantifier(x):
+            stack.append(x.body())
+    r = frozenset(out)
+    _sym_cache[key] = r
+    return r
 
 
 class Frame(object):
@@ -91,6 +192,8 @@ class Ctx(object):
         self.ghost = {}
         self.notes = []
         self.trace = []
+        self.schemas = []
+        self.inst_terms = []
 
     # -- naming ---------------------------------------------------------
     def fresh(self, base, sort):
@@ -119,12 +222,26 @@ class Ctx(object):
 
     # -- path condition -----------------------------------------------------
     def assume(self, cond):
-        cond = z3.simplify(cond)
+        cond = simp(cond)
         if z3.is_true(cond):
             return
         if z3.is_false(cond):
             raise PathEnd()
+        if z3.is_quantifier(cond) and cond.is_forall() and \
+                cond.num_vars() == 1 and cond.var_sort(0) == z3.IntSort():
+            v = self.fresh_int('q')
+            self.assume_forall(v, z3.substitute_vars(cond.body(), v))
+            return
+        if z3.is_and(cond):
+            for ch in cond.children():
+                self.assume(ch)
+            return
         self.pc.append(cond)
+
+    def assume_forall(self, var, body, defaults=()):
+        """A universally quantified fact, kept as a schema and instantiated
+        at obligation time (quantifier-free VCs)."""
+        self.schemas.append((var, body, list(defaults)))
 
     def feasible(self, extra):
         key = (tuple(a.get_id() for a in self.pc), extra.get_id())
@@ -134,6 +251,35 @@ class Ctx(object):
                                 timeout_ms=self.engine.feas_timeout_ms)
             _feas_cache[key] = r
         return r != smt.UNSAT
+
+    def decide(self, cond):
+        """Path-sensitive simplification: True / False when the path
+        condition (plus default instances of the quantified facts) settles
+        `cond`, else None.  Only `unsat` answers are used (sound)."""
+        cond = simp(cond)
+        if z3.is_true(cond):
+            return True
+        if z3.is_false(cond):
+            return False
+        base = self.pc + self.instantiate_schemas([])
+        key = (tuple(a.get_id() for a in base), cond.get_id(), 'decide')
+        r = _feas_cache.get(key)
+        if r is None:
+            r = 'none'
+            if smt.quick_check(base + [z3.Not(cond)], 150) == smt.UNSAT:
+                r = 'true'
+            elif smt.quick_check(base + [cond], 150) == smt.UNSAT:
+                r = 'false'
+            _feas_cache[key] = r
+        return {'true': True, 'false': False, 'none': None}[r]
+
+    def ite(self, cond, a, b):
+        d = self.decide(cond)
+        if d is True:
+            return a
+        if d is False:
+            return b
+        return z3.If(cond, a, b)
 
     def choose(self, n, conds=None, label=''):
         """n-ary decision; conds (optional) are the z3 guards of the
@@ -157,7 +303,7 @@ class Ctx(object):
         return d
 
     def branch(self, cond):
-        cond = z3.simplify(cond)
+        cond = simp(cond)
         if z3.is_true(cond):
             return True
         if z3.is_false(cond):
@@ -170,11 +316,46 @@ class Ctx(object):
 
     # -- obligations ----------------------------------------------------------
     def oblige(self, label, goal, where='', kind='post'):
-        goal_s = z3.simplify(goal)
-        ob = Obligation(None, label, self.pc, goal_s, where,
+        goal_s = simp(goal)
+        extra = []
+        skolems = []
+        # skolemise universally quantified goals: proving (A => forall j. P)
+        # is proving P(j0) under A for a fresh j0
+        for _ in range(4):
+            if z3.is_implies(goal_s) and z3.is_quantifier(goal_s.arg(1)):
+                extra.append(goal_s.arg(0))
+                goal_s = goal_s.arg(1)
+            if z3.is_quantifier(goal_s) and goal_s.is_forall():
+                consts = [self.fresh('sk_' + goal_s.var_name(i),
+                                     goal_s.var_sort(i))
+                          for i in range(goal_s.num_vars())]
+                skolems.extend(consts)
+                goal_s = simp(z3.substitute_vars(
+                    goal_s.body(), *reversed(consts)))
+            else:
+                break
+        assumptions = list(self.pc) + extra
+        assumptions += self.instantiate_schemas(skolems, goal_s)
+        ob = Obligation(None, label, assumptions, goal_s, where,
                         list(self.taken), kind)
+        ob.n_pc = len(self.pc)
         self.obligations.append(ob)
         return ob
+
+    def instantiate_schemas(self, skolems, goal=None):
+        out = []
+        int_terms = [t for t in skolems if t.sort() == z3.IntSort()]
+        for var, body, defaults in self.schemas:
+            terms = list(int_terms) + list(defaults) + list(self.inst_terms)
+            seen = set()
+            for t in terms:
+                t = simp(t) if not z3.is_const(t) else t
+                if t.get_id() in seen:
+                    continue
+                seen.add(t.get_id())
+                out.append(z3.substitute(body, (var, t)))
+        # second round: schemas may mention each other's terms (kept small)
+        return out
 
     @property
     def frame(self):
@@ -212,7 +393,7 @@ def truth(ctx, v):
         if isinstance(c, ListCell):
             return z3.BoolVal(len(c.items) > 0)
         if isinstance(c, SeqCell):
-            return z3.Length(c.e) > 0
+            return L_len(c.e) > 0
         if isinstance(c, DictCell):
             if c.sym is None:
                 return z3.BoolVal(len(c.items) > 0)
@@ -256,7 +437,10 @@ def eq(ctx, a, b):
     if isinstance(a, VRef) and isinstance(b, VRef):
         ca, cb = ctx.cell(a), ctx.cell(b)
         if isinstance(ca, SeqCell) and isinstance(cb, SeqCell):
-            return ca.e == cb.e
+            if ca.e.eq(cb.e):
+                return z3.BoolVal(True)
+            from .lists import l_equal
+            return l_equal(ctx, ca.e, cb.e)
         if isinstance(ca, ListCell) and isinstance(cb, ListCell):
             if len(ca.items) != len(cb.items):
                 return z3.BoolVal(False)
@@ -266,9 +450,9 @@ def eq(ctx, a, b):
         if isinstance(ca, SeqCell) and isinstance(cb, ListCell):
             ca, cb = cb, ca
         if isinstance(ca, ListCell) and isinstance(cb, SeqCell):
-            conj = [z3.Length(cb.e) == len(ca.items)]
+            conj = [L_len(cb.e) == len(ca.items)]
             for i, it in enumerate(ca.items):
-                conj.append(eq(ctx, it, seq_elem(cb, cb.e[i])))
+                conj.append(eq(ctx, it, seq_elem(cb, L_at(cb.e, i))))
             return z3.And(conj)
         if isinstance(ca, DictCell) and isinstance(cb, DictCell) \
                 and ca.sym is None and cb.sym is None:
@@ -323,18 +507,24 @@ def elem_expr(kind, v):
     raise Unsupported(kind)
 
 
-def norm_index(i, n):
+def norm_index(i, n, ctx=None):
     """Python index normalisation for slices: clamp to [0, n]."""
-    j = z3.If(i < 0, i + n, i)
-    return z3.If(j < 0, z3.IntVal(0), z3.If(j > n, n, j))
+    if ctx is None:
+        j = z3.If(i < 0, i + n, i)
+        return z3.If(j < 0, z3.IntVal(0), z3.If(j > n, n, j))
+    j = ctx.ite(i < 0, i + n, i)
+    return ctx.ite(j < 0, z3.IntVal(0), ctx.ite(j > n, n, j))
 
 
-def slice_str(e, lo, hi):
+def slice_str(e, lo, hi, ctx=None):
     n = z3.Length(e)
-    a = norm_index(lo, n) if lo is not None else z3.IntVal(0)
-    b = norm_index(hi, n) if hi is not None else n
-    ln = z3.If(b - a < 0, z3.IntVal(0), b - a)
-    return z3.simplify(z3.SubString(e, a, ln))
+    a = norm_index(lo, n, ctx) if lo is not None else z3.IntVal(0)
+    b = norm_index(hi, n, ctx) if hi is not None else n
+    if ctx is None:
+        ln = z3.If(b - a < 0, z3.IntVal(0), b - a)
+    else:
+        ln = ctx.ite(b - a < 0, z3.IntVal(0), b - a)
+    return z3.SubString(e, a, ln)
 
 
 def unbox_choose(ctx, v, allowed=('none', 'int', 'str', 'bytes', 'bool')):
@@ -348,6 +538,12 @@ def unbox_choose(ctx, v, allowed=('none', 'int', 'str', 'bytes', 'bool')):
              ('bytes', Val.is_BytesV(e), lambda: VStr(Val.bval(e), True)),
              ('bool', Val.is_BoolV(e), lambda: VBool(Val.tval(e)))]
     tests = [t for t in tests if t[0] in allowed]
+    # If(c, Ctor(a), Ctor(b)): fork on c itself and recurse (clean terms)
+    if z3.is_app(e) and e.decl().kind() == z3.Z3_OP_ITE:
+        c, x, y = e.children()
+        if ctx.branch(c):
+            return unbox_choose(ctx, VBox(x), allowed)
+        return unbox_choose(ctx, VBox(y), allowed)
     # constructor application is decided syntactically
     for name, cond, mk in tests:
         if z3.is_true(z3.simplify(cond)):
